@@ -36,6 +36,7 @@ class Ctx:
         self.kinds = set()
         self.samples = []
         self.flagsets = set()
+        self.last_pool_err = b''
 
     def m(self, lines):
         return run_lines(self.model, lines, shards=1 if len(lines) < 64 else None)
@@ -435,8 +436,9 @@ def pool_walk(pool):
     return links, regs, dirs
 
 
-def verify_pool(cx, tree, step, walked, foreign, share=None):
+def verify_pool(cx, tree, step, walked, foreign, share=None, replay=None):
     rc, out, logb, err = tool(cx.exe, tree, ['pool'], 'pool.log')
+    cx.last_pool_err = err + out
     if rc != 0:
         cx.bad(step, 'pool exits %d' % rc, {'stderr': err[-500:].decode('latin1')})
         return
@@ -476,7 +478,7 @@ def verify_pool(cx, tree, step, walked, foreign, share=None):
         probs.append('empty directory %r kept' % d)
     if probs:
         cx.bad(step, 'pool directory is not "one symlink per recorded file/link, stale ones and empty directories removed, foreign files kept": ' + '; '.join(probs[:4]),
-               {'problems': probs[:20]})
+               dict(replay or {}, problems=probs[:20], pool_stderr=cx.last_pool_err.decode('latin1')[-300:]))
     if len(cx.samples) < 12:
         cx.samples.append({'cmd': 'pool', 'step': step, 'links': len(links), 'foreign_kept': len(regs), 'dirs': len(dirs)})
 
@@ -763,12 +765,16 @@ def scenario_status_flags(cx, rng):
     cpath = os.path.join(tree.root, 'content')
     st = c20c.load(cpath)
     now = int(time.time())
-    for variant in range(3):
+    for variant in range(6):
         infos = []
         for i in range(st['blockmax']):
             c = (i + 3 * variant) % 9
             if st['info'][i] is None:
                 infos.append(None)                      # (a used stripe without info word makes the tool abort at load: not a status matter)
+            elif variant >= 3:                          # the bad range at the ends: {0}, {0, last used}, {last used}
+                lastu = max(k for k in range(st['blockmax']) if st['info'][k] is not None)
+                isbad = (i == 0 and variant in (3, 4)) or (i == lastu and variant in (4, 5))
+                infos.append({'time': (now - 86400 * (i % 11) - 8 * i) & ~7, 'bad': isbad, 'rehash': False, 'justsynced': i % 3 == 0})
             elif variant == 2:                          # more than 100 bad stripes, some scrub dates in the future
                 infos.append({'time': (now + (86400 * 3 if i % 5 == 0 else -86400 * (i % 30)) - 8 * i) & ~7, 'bad': i % 9 != 4, 'rehash': False, 'justsynced': i % 7 == 0})
             else:
@@ -783,43 +789,87 @@ def scenario_status_flags(cx, rng):
         cx.chk.notes.append('status flag combinations (bad, rehash, justsynced) not exercised: %r' % missing)
 
 
+def snapshot_disks(tree):
+    """every entry of every data disk (directories and symlinks included): type, inode, size, mtime, ctime, content"""
+    snap = {}
+    for n, d in tree.disks:
+        for root, ds, fs in os.walk(os.fsencode(d)):
+            for p in [root] + [os.path.join(root, x) for x in ds + fs]:
+                st = os.lstat(p)
+                if stat.S_ISLNK(st.st_mode):
+                    c = os.readlink(p)
+                elif stat.S_ISREG(st.st_mode):
+                    with open(p, 'rb') as f:
+                        c = f.read()
+                else:
+                    c = None
+                snap[p] = (stat.S_IFMT(st.st_mode), st.st_ino, st.st_size, st.st_mtime_ns, st.st_ctime_ns, c)
+    return snap
+
+
+STALE_VARIANTS = [
+    # name, disks, first generation [(disk, sub, kind)], removed afterwards, second generation
+    ('file_to_dir', 1, [(0, b'a', 'f'), (0, b'c', 'f')], [(0, b'a')], [(0, b'a/b', 'f')]),
+    ('two_disks', 2, [(0, b'a', 'f'), (1, b'c', 'f')], [(0, b'a')], [(0, b'a/x', 'f'), (1, b'a/y', 'f')]),
+    ('two_disks_rev', 2, [(1, b'a', 'f'), (0, b'c', 'f')], [(1, b'a')], [(1, b'a/x', 'f'), (0, b'a/y', 'f')]),
+    ('other_disk', 2, [(0, b'a', 'f'), (1, b'c', 'f')], [(0, b'a')], [(1, b'a/y', 'f')]),
+    ('depth2', 1, [(0, b'a/b', 'f'), (0, b'a/keep', 'f')], [(0, b'a/b')], [(0, b'a/b/c', 'f'), (0, b'a/b/d\ne/f', 'f')]),
+    ('link_to_dir', 2, [(0, b'c', 'f'), (0, b'l', 'l'), (1, b'k', 'f')], [(0, b'l')], [(0, b'l/f', 'f'), (1, b'l/g', 'f')]),
+    ('two_levels', 1, [(0, b'a', 'f'), (0, b'z', 'f')], [(0, b'a')], [(0, b'a/b/c/d', 'f'), (0, b'a/b2', 'f')]),
+]
+
+
 def scenario_pool_stale_dir(cx):
-    """a recorded file `a` is replaced by a directory a/ holding b; the pool still has the link `a` of the previous run"""
-    root = mkscratch('c20s.')
-    tree = Tree(root, 1)
+    """regression family of the repaired finding F-C20-pool-stale-link-followed: a recorded file (or link) is replaced by a
+    directory of the same name, possibly on another disk or on two disks; the pool still holds the link of the previous run.
+    After the next pool run: exactly one link per recorded file with the right target and time, nothing created or changed
+    inside any data disk, no 'Duplicate pooling' warning"""
     now = 1600000000
-    tree.write(0, b'a', b'A' * 600, now * 10 ** 9 + 11)
-    tree.write(0, b'c', b'C' * 600, now * 10 ** 9 + 12)
-    rc, out, logb, err = tool(cx.exe, tree, ['sync'])
-    walked = [(n, ) + walk_disk(d) for n, d in tree.disks]
-    verify_pool(cx, tree, 'stale_first', walked, [])
-    os.remove(tree.path(0, b'a'))
-    tree.write(0, b'a/b', b'B' * 700, (now + 5) * 10 ** 9 + 13)
-    rc, out, logb, err = tool(cx.exe, tree, ['sync'])
-    if rc != 0:
-        cx.bad('stale_sync', 'sync after replacing a file by a directory exits %d' % rc, {'stderr': err[-800:].decode('latin1')})
-        return
-    walked = [(n, ) + walk_disk(d) for n, d in tree.disks]
-    before = os.lstat(tree.path(0, b'a/b'))
-    rc, out, logb, err = tool(cx.exe, tree, ['pool'], 'pool.log')
-    after = os.lstat(tree.path(0, b'a/b'))
-    links, regs, dirs = pool_walk(tree.pool)
-    cx.evals += 2
-    cx.kinds.add('pool_stale_dir')
-    target = os.fsencode(tree.disks[0][1]) + b'/a/b'
-    touched = before.st_ctime_ns != after.st_ctime_ns
-    if links.get(b'a/b', (None,))[0] != target or touched:
-        what = ('pool after a recorded file `a` became the directory a/ (holding b): the stale pool link `a` of the previous run is followed into the data disk; '
-                'afterwards %s, %s (stderr: %s); a further pool run repairs it'
-                % ('there is no link for a/b (pool holds %r)' % sorted(links) if b'a/b' not in links else 'a/b -> %r' % links[b'a/b'][0],
-                   'lmtime() was applied to the data file itself (ctime changed)' if touched else 'the data file was not touched',
-                   err.decode('latin1').strip()[-120:]))
-        cx.chk.violation('pool_stale_dir', what,
-                         {'scenario': 'pool_stale_dir', 'steps': ['d1/a (600 bytes), d1/c', 'sync', 'pool', 'rm d1/a; mkdir d1/a; write d1/a/b', 'sync', 'pool'],
-                          'pool_links_after': {k.decode('latin1'): v[0].decode('latin1') for k, v in links.items()}, 'data_file_ctime_changed': touched,
-                          'stderr': err.decode('latin1')[-400:]}, finding_key='F-C20-pool-stale-link-followed')
-    # whatever the second run did, a third one must reach the exact pool
-    verify_pool(cx, tree, 'stale_third', walked, [])
+    for vi, (name, nd, gen1, removed, gen2) in enumerate(STALE_VARIANTS):
+        root = mkscratch('c20s.')
+        tree = Tree(root, nd)
+        for k, (di, sub, kind) in enumerate(gen1):
+            if kind == 'f':
+                tree.write(di, sub, bytes([65 + k]) * (600 + k), (now + k) * 10 ** 9 + 11 + k)
+            else:
+                tree.symlink(di, sub, b'c')
+        for di in range(nd):                               # (a file that stays on every disk: the all-files-missing interlock of sync)
+            tree.write(di, b'stay%d' % di, b'S' * 500, (now + 30 + di) * 10 ** 9 + 3)
+        rc, out, logb, err = tool(cx.exe, tree, ['sync'])
+        walked = [(n, ) + walk_disk(d) for n, d in tree.disks]
+        verify_pool(cx, tree, 'stale_%s_first' % name, walked, [])
+        for di, sub in removed:
+            os.remove(tree.path(di, sub))
+        for k, (di, sub, kind) in enumerate(gen2):
+            tree.write(di, sub, bytes([97 + k]) * (700 + k), (now + 50 + k) * 10 ** 9 + 13 + k)
+        rc, out, logb, err = tool(cx.exe, tree, ['sync'])
+        if rc != 0:
+            cx.bad('stale_%s_sync' % name, 'sync after replacing a file by a directory exits %d' % rc, {'stderr': err[-800:].decode('latin1')})
+            continue
+        walked = [(n, ) + walk_disk(d) for n, d in tree.disks]
+        before = snapshot_disks(tree)
+        recipe = {'scenario': 'pool_stale_dir', 'variant': name, 'disks': nd,
+                  'steps': ['write ' + ', '.join('d%d/%s%s' % (di + 1, sub.decode('latin1'), ' (symlink)' if kd == 'l' else '') for di, sub, kd in gen1), 'sync', 'pool',
+                            'remove ' + ', '.join('d%d/%s' % (di + 1, sub.decode('latin1')) for di, sub in removed),
+                            'write ' + ', '.join('d%d/%s' % (di + 1, sub.decode('latin1')) for di, sub, kd in gen2), 'sync', 'pool']}
+        verify_pool(cx, tree, 'stale_%s_second' % name, walked, [], replay=recipe)
+        after = snapshot_disks(tree)
+        cx.evals += len(after)
+        cx.kinds.add('pool_stale_dir')
+        changed = sorted(set(before) ^ set(after)) + sorted(p for p in before if p in after and before[p] != after[p])
+        if changed:
+            def descr(p):
+                if p not in before:
+                    return 'created ' + repr(os.path.relpath(p, os.fsencode(tree.root)))
+                if p not in after:
+                    return 'removed ' + repr(os.path.relpath(p, os.fsencode(tree.root)))
+                names = ('type', 'inode', 'size', 'mtime', 'ctime', 'content')
+                return 'changed %s of %r' % ('/'.join(nm for nm, a, b in zip(names, before[p], after[p]) if a != b), os.path.relpath(p, os.fsencode(tree.root)))
+            cx.chk.violation('pool_stale_%s_disk' % name, 'pool writes inside a data disk when a recorded %s was replaced by a directory of the same name (the pool link of the previous run is '
+                             'followed): %s' % ('link' if name == 'link_to_dir' else 'file', '; '.join(descr(p) for p in changed[:4])), dict(recipe, changed=[descr(p) for p in changed[:20]]))
+        if b'Duplicate pooling' in cx.last_pool_err:
+            cx.chk.violation('pool_stale_%s_warn' % name, "pool warns 'Duplicate pooling' although every recorded path is unique: %s" % cx.last_pool_err.decode('latin1').strip()[-200:], recipe)
+        verify_pool(cx, tree, 'stale_%s_third' % name, walked, [])
 
 
 def zerosub_expected(walked):
